@@ -118,3 +118,14 @@ Theorem C02_history_pointwise : forall oracle_for ops az calls,
                sec_ok (oracle_for (hq_creds c)) (nth (hq_op c) ops []) az (hq_bind c) true tr = true.
 Proof. exact history_pointwise. Qed.
 Print Assumptions C02_history_pointwise.
+
+(* a request that is refused (no parameter binding in its trace) is refused identically whatever its Accept header
+   admits, and the predicate evaluated by the check on such a request is the property itself: the 406 of the
+   response-format validation is open to requests that were let through only *)
+Theorem C02_refusal_whatever_accept : forall out alts az bind_ok fmt_ok,
+  existsb is_bind (secure_handler out alts az bind_ok) = false ->
+  secure_handler_fmt out alts az bind_ok fmt_ok = secure_handler out alts az bind_ok /\
+  sec_ok_fmt out alts az bind_ok fmt_ok true (secure_handler_fmt out alts az bind_ok fmt_ok) =
+  sec_ok out alts az bind_ok true (secure_handler out alts az bind_ok).
+Proof. exact refusal_whatever_accept. Qed.
+Print Assumptions C02_refusal_whatever_accept.
